@@ -791,6 +791,25 @@ func main() {
 	}
 	w("].\n")
 
+	// ---- the two writers of a WebSocket connection take the write lock around what they put on the socket
+	w("\nDefinition ws_shape : list (string * list string) := [\n")
+	wos := []co{
+		{"transport/websocket.go", "Write", []string{".wmu.Lock", ".wmu.Unlock", ".Conn.Write", "wsutil.WriteServerBinary"}},
+	}
+	for i, c := range wos {
+		ts := callOrder(parse(filepath.Join(*repo, c.file)), c.fn, c.want)
+		q := make([]string, len(ts))
+		for j, t := range ts {
+			q[j] = "\"" + t + "\""
+		}
+		sep := ";"
+		if i == len(wos)-1 {
+			sep = ""
+		}
+		w("  (\"%s\", [%s])%s\n", c.fn, strings.Join(q, "; "), sep)
+	}
+	w("].\n")
+
 	// ---- order of the accesses of an outbound acknowledgement and of the writer's pop
 	w("\nDefinition ack_shape : list (string * list string) := [\n")
 	aos := []co{
